@@ -158,16 +158,34 @@ def check_read_batch(ctx, path, spec, model_rows, rng, desc):
                 units[k] = alt[k][rng.integers(0, len(alt[k]))]
     kind = str(rng.choice(["slice", "tuple", "idx", "idx-unsorted-repeats", "int"]))
     is_f64 = spec.dtype == np.float64
-    if kind == "slice":
+    if kind in ("slice", "tuple"):
         a, b = sorted(int(x) for x in rng.integers(0, N + 1, 2))
-        if a == b:
+        r_ = rng.random()
+        if r_ < 0.15:
+            # empty ranges, e.g. the (0, 0) task batch_tasks emits for zero samples
+            a = b = int(rng.choice([0, 0, N, int(rng.integers(0, N + 1))]))
+            kind += "-empty"
+        elif r_ < 0.25:
+            b = N + int(rng.integers(1, 50))         # runs past the last row
+            kind += "-past-end"
+        elif r_ < 0.35 and kind == "slice":
+            a, b = (None, b) if rng.random() < 0.5 else (a, None)     # open-ended
+            kind += "-open"
+        elif r_ < 0.42 and kind == "slice" and N > 1:
+            a, b = -int(rng.integers(1, N + 1)), None                    # the last k rows
+            kind += "-negative"
+        elif a == b:
             a, b = 0, N
-        sel, arg = np.arange(N)[a:b], slice(a, b)
-    elif kind == "tuple":
-        a, b = sorted(int(x) for x in rng.integers(0, N + 1, 2))
-        if a == b:
-            a, b = 0, N
-        sel, arg = np.arange(N)[a:b], (a, b)
+        step = None
+        if kind == "slice" and rng.random() < 0.15:
+            step = int(rng.integers(1, 4))
+            kind += "-step"
+        if kind.startswith("slice"):
+            arg = slice(a, b, step)
+            sel = np.arange(N)[arg]
+        else:
+            arg = (a, b)
+            sel = np.arange(N)[a:b]
     elif kind == "idx":
         sel = np.sort(rng.choice(N, size=int(rng.integers(1, N + 1)), replace=False))
         arg = sel.copy()
